@@ -665,7 +665,9 @@ func evalConstants(q Q) Q {
 			return &Const{true}
 		}
 	case *Branch:
-		if s.Pattern == "" {
+		// An empty pattern is contained in every branch name. An exact match
+		// of the empty name is not: it selects nothing.
+		if s.Pattern == "" && !s.Exact {
 			return &Const{true}
 		}
 	case *BranchesRepos:
